@@ -110,6 +110,7 @@ type ABody struct {
 	Blocks Map[*ABlock] `json:"blocks"`
 	Any    bool         `json:"any"`
 	Ext    AExt         `json:"ext"`
+	Link   bool         `json:"link"`
 }
 
 func (b *ABody) IsNil() bool { return b == nil || b.K == "nil" }
@@ -123,8 +124,9 @@ func (b *ABody) MarshalJSON() ([]byte, error) {
 		Blocks map[string]*ABlock `json:"blocks"`
 		Any    bool               `json:"any"`
 		Ext    AExt               `json:"ext"`
+		Link   bool               `json:"link"`
 	}
-	p := plain{map[string]*AAttr(b.Attrs), map[string]*ABlock(b.Blocks), b.Any, b.Ext}
+	p := plain{map[string]*AAttr(b.Attrs), map[string]*ABlock(b.Blocks), b.Any, b.Ext, b.Link}
 	if p.Attrs == nil {
 		p.Attrs = map[string]*AAttr{}
 	}
@@ -150,6 +152,11 @@ func avalCty(v *AVal) (cty.Value, lang.Address, bool) {
 	case "num":
 		f, _ := v.V.(float64)
 		return cty.NumberIntVal(int64(f)), nil, true
+	case "bool":
+		if b, _ := v.V.(bool); b {
+			return cty.True, nil, true
+		}
+		return cty.False, nil, true
 	case "ref":
 		parts := strings.Split(fmt.Sprint(v.V), ".")
 		addr := lang.Address{lang.RootStep{Name: parts[0]}}
@@ -183,6 +190,9 @@ func buildBody(b *ABody) *schema.BodySchema {
 	if b.Ext.Count || b.Ext.ForEach || b.Ext.Dyn {
 		bs.Extensions = &schema.BodyExtensions{Count: b.Ext.Count, ForEach: b.Ext.ForEach, DynamicBlocks: b.Ext.Dyn}
 	}
+	if b.Link {
+		bs.DocsLink = &schema.DocsLink{URL: "https://example.com/docs", Tooltip: "docs"}
+	}
 	if b.Any {
 		bs.AnyAttribute = &schema.AttributeSchema{IsOptional: true, Constraint: schema.AnyExpression{OfType: cty.DynamicPseudoType}}
 		bs.Attributes = nil
@@ -193,7 +203,11 @@ func buildBody(b *ABody) *schema.BodySchema {
 		}
 		as := &schema.AttributeSchema{IsRequired: a.Req, IsOptional: a.Opt, IsComputed: a.Comp, IsDepKey: a.Dep, IsDeprecated: a.Depr,
 			Description: probeDesc("attr", n)}
-		if a.Dep {
+		if strings.HasPrefix(n, "p_") {
+			// probe attribute (C16): addressable, holds a reference
+			as.Constraint = schema.Reference{OfScopeId: "sc"}
+			as.Address = &schema.AttributeAddrSchema{Steps: schema.Address{schema.StaticStep{Name: "pr"}, schema.AttrNameStep{}}, ScopeId: "probe", AsReference: true}
+		} else if a.Dep {
 			as.Constraint = schema.OneOf{schema.LiteralType{Type: cty.String}, schema.LiteralType{Type: cty.Number}, schema.Reference{OfScopeId: "any"}}
 		} else {
 			as.Constraint = schema.AnyExpression{OfType: cty.DynamicPseudoType}
